@@ -7,9 +7,10 @@ generically; the pure local bindings of `sync_trait` (`alias` normalisation,
 `is_list`, `info`, `dic`, `key`, `callback`, `value`) are substituted into their
 uses; every remaining condition / effect must be, textually after substitution,
 one of the atoms of PyLLink.LCond / PyLLink.LAct.  The nested weak-reference
-callback `_sync_trait_listener_deleted` must be, up to formatting and comments,
-the expected text below (digest tripwire: it is what Model.Sync.World.kill does
-to the survivors' tables).  Anything else raises (fail closed).
+callback `_sync_trait_listener_deleted` is translated on its own into a PyLLink.CbStmt
+(two snapshot loops, `key != ""`, `ref is value[0]`, `del dic[name]`, `len(dic) == 0`,
+`del info[key]`); Props/C20 proves it is what Model.Sync.World.kill does to the
+survivors' tables.  Anything else raises (fail closed).
 
 Emits Generated/SyncLink.lean; Props/C20.lean proves (`C20_link_is_source`) that
 the hand-written registration / removal functions of Model/SyncLive.lean are the
@@ -176,9 +177,10 @@ def stmt(s, env):
             raise Unknown("return with a value")
         return ".ret"
     if isinstance(s, ast.FunctionDef):
-        want = ast.parse(LISTENER).body[0]
-        if s.name != want.name or not same_code(s, want):
-            raise Unknown("nested function %s differs from the expected weak-reference callback" % s.name)
+        # the weak-reference callback: translated on its own (CbStmt), see callback()
+        if "LISTENER_DEF" in env:
+            raise Unknown("second nested function %s" % s.name)
+        env["LISTENER_DEF"] = s
         env[s.name] = sym("LISTENER")
         return None
     if isinstance(s, ast.If):
@@ -201,6 +203,71 @@ def stmt(s, env):
             return "(.act %s)" % ATOM_ACT[t]
         raise Unknown("statement %r" % t)
     raise Unknown("statement kind %s" % type(s).__name__)
+
+
+CB_COND = {
+    "KEY != ''": ".keyNotLockTable",
+    "REF is VALUE[0]": ".refIsEntry",
+    "len(DIC) == 0": ".tableEmpty",
+}
+
+
+def cb_norm(node, env):
+    class S(ast.NodeTransformer):
+        def visit_Name(self, n):
+            if n.id in env:
+                return ast.Name(id=env[n.id], ctx=ast.Load())
+            if n.id in ("list", "len"):
+                return n
+            raise Unknown("callback: unbound name %r" % n.id)
+    return ast.unparse(ast.fix_missing_locations(S().visit(copy.deepcopy(node))))
+
+
+def cb_block(stmts, env):
+    return seq([cb_stmt(x, env) for x in stmts])
+
+
+def cb_stmt(s, env):
+    if isinstance(s, ast.Expr) and isinstance(s.value, ast.Constant) and isinstance(s.value.value, str):
+        return None
+    if isinstance(s, ast.Pass):
+        return ".skip"
+    if isinstance(s, ast.If):
+        t = cb_norm(s.test, env)
+        if t not in CB_COND:
+            raise Unknown("callback: condition %r" % t)
+        return "(.ite %s %s %s)" % (CB_COND[t], cb_block(s.body, dict(env)), cb_block(s.orelse, dict(env)))
+    if isinstance(s, ast.For):
+        if s.orelse:
+            raise Unknown("callback: for/else")
+        tg = s.target
+        if not (isinstance(tg, ast.Tuple) and len(tg.elts) == 2 and all(isinstance(e, ast.Name) for e in tg.elts)):
+            raise Unknown("callback: loop target %s" % ast.unparse(tg))
+        it = cb_norm(s.iter, env)
+        inner = dict(env)
+        if it == "list(INFO.items())" and "KEY" not in env.values():
+            inner[tg.elts[0].id], inner[tg.elts[1].id] = "KEY", "DIC"
+            return "(.forTables %s)" % cb_block(s.body, inner)
+        if it == "list(DIC.items())" and "NAME" not in env.values():
+            inner[tg.elts[0].id], inner[tg.elts[1].id] = "NAME", "VALUE"
+            return "(.forEntries %s)" % cb_block(s.body, inner)
+        raise Unknown("callback: loop over %r" % it)
+    if isinstance(s, ast.Delete):
+        t = cb_norm(s, env)
+        if t == "del DIC[NAME]":
+            return ".delEntry"
+        if t == "del INFO[KEY]":
+            return ".delTable"
+        raise Unknown("callback: statement %r" % t)
+    raise Unknown("callback: statement kind %s" % type(s).__name__)
+
+
+def callback(f):
+    a = f.args
+    if ([x.arg for x in a.args] != ["ref", "info"] or a.defaults or a.vararg or a.kwarg or a.kwonlyargs
+            or f.decorator_list or f.name != "_sync_trait_listener_deleted"):
+        raise Unknown("callback: unexpected signature")
+    return cb_block(f.body, {"ref": "REF", "info": "INFO"})
 
 
 def find_methods(tree, cls, names):
@@ -227,7 +294,9 @@ def sync_trait(f):
     out = block(f.body, env)
     if "alias" not in env:
         raise Unknown("alias is not normalised")
-    return out
+    if "LISTENER_DEF" not in env:
+        raise Unknown("no weak-reference callback")
+    return out, callback(env["LISTENER_DEF"])
 
 
 def is_list_trait(f):
@@ -281,8 +350,9 @@ def emit(traits_dir):
         "namespace TraitsVerif.Generated.SyncLink\n"
         "open TraitsVerif.Model.PyLLink\n\n"
         "def syncTrait : LStmt :=\n  %s\n\n"
+        "def listenerDeleted : CbStmt :=\n  %s\n\n"
         "def isListTrait : IsListExpr :=\n  %s\n\n"
-        "end TraitsVerif.Generated.SyncLink\n" % (sync_trait(ms["sync_trait"]), is_list_trait(ms["_is_list_trait"])))
+        "end TraitsVerif.Generated.SyncLink\n" % (sync_trait(ms["sync_trait"]) + (is_list_trait(ms["_is_list_trait"]),)))
 
 
 if __name__ == "__main__":
